@@ -259,3 +259,26 @@ Definition check (c : case) : bool :=
   | CBlock offs gh blk enc dec2 =>
     zlist_eqb (blk_encrypt offs (steps_of gh) blk) enc && zlist_eqb (blk_decrypt offs (steps_of gh) blk) dec2
   end.
+
+(* ---- the send and receive paths (c2.writePacket / c2.readPacket) -------------------------------- *)
+(* what Transform.Write may put on the connection for the bytes x: the DNS transform picks any of
+   its domains and draws random bytes *)
+Definition tr_sends (t : tr) (x w : list Z) : Prop :=
+  match t with
+  | TNone => w = x
+  | TB64 s => w = b64t_enc s x
+  | TDns server ds => exists d rnd, In d ds /\ w = dns_encode server d rnd x
+  end.
+
+Section Path.
+  Variable packet : Type.
+  Variable marshal : packet -> list Z.                 (* com.Packet.Marshal (property C01) *)
+  Variable unmarshal : list Z -> res packet.           (* com.Packet.Unmarshal *)
+
+  (* writePacket: marshal through the wrapper stack into a buffer, the transform writes the buffer *)
+  Definition path_sends (ws : list wrapper) (t : tr) (p : packet) (w : list Z) : Prop :=
+    tr_sends t (wrap_stack ws (marshal p)) w.
+  (* readPacket: the transform reads the whole input into a buffer, the stack unwraps it, Unmarshal *)
+  Definition path_recv (ws : list wrapper) (t : tr) (w : list Z) : res packet :=
+    do y <- tr_dec t w; do plain <- unwrap_stack ws y; unmarshal plain.
+End Path.
